@@ -3,15 +3,18 @@ import json, os
 V = os.path.dirname(os.path.dirname(os.path.abspath(__file__)))
 CLAIMED = {
     'C18': dict(
-        cat='proof', design='DESIGN.md §7 C18',
-        text='Theorems (Coq, closed under the global context) about the validators REGENERATED from css_match.py on every run: '
-             'days per month incl. leap years for every year, ISO week count (52/53) derived from first principles, exact '
-             'characterisation of validate_week (incl. the two known deviations), tuple order = calendar order for dates, weeks, '
-             'times. parse_value/match_range are an executable Gallina model over the regenerated regexes, run (extracted) against '
-             'the implementation and an independent HTML spec on every case.',
+        cat='proof', design='DESIGN.md §0, §7 C18',
+        text='Theorems (Coq, closed under the global context) about the validators AND the patterns REGENERATED from css_match.py on every '
+             'run: days per month incl. leap years for every year, ISO week count (52/53) from first principles, exact characterisation '
+             'of validate_week (incl. the two known deviations), tuple order = calendar order; the date / month / week / time / '
+             'datetime-local patterns are sequences of captured digit runs and literal separators, for which the backtracking matcher '
+             'finds exactly what a left-to-right split finds (RunFacts.ends_items, every subject), hence parse_value = split + int + '
+             'validators for EVERY string (DateShape.parse_*), and for type=date, in both directions, accepted with (y, m, d) <=> a valid '
+             'HTML date string. number/range and match_range are an executable Gallina model run (extracted) against the implementation '
+             'and an independent HTML spec on every case.',
         note='Trusted: Coq kernel, translators T1/T4, extraction (ExtrOcamlBasic), model of strptime/isocalendar (cross-checked '
-             'every run), float(str) modelled as exact decimal. The regex shapes are executed, not proved equivalent to the HTML grammar.',
-        technique='Coq proof over source-translated validators + extracted-model/implementation/spec differential'),
+             'every run), float(str) modelled as exact decimal. The number pattern RE_NUM is executed, not proved equivalent to the HTML grammar.',
+        technique='Coq proof over source-translated validators and regexes (end-to-end for date strings) + extracted-model/implementation/spec differential'),
 }
 CLAIMED.update({
     'C01': dict(cat='proof', design='DESIGN.md §7 C01',
